@@ -1196,6 +1196,14 @@ def sequence_features(muts, batched=True, spec=None):
             if key in changed_fields:
                 changed_fields.add(new_key)
 
+            if desc[2] in feats['type_change_names']:
+                # the field whose ChangeFields were merged across a type
+                # change goes on under a new name / column name
+                feats['type_change_names'].append(desc[3])
+
+                if (desc[4] or {}).get('db_column'):
+                    feats['type_change_names'].append(desc[4]['db_column'])
+
             if key in notnull_fixed:
                 notnull_fixed.add(new_key)
 
@@ -3439,6 +3447,9 @@ _INIT_ALPHABET = [
                                     'value': 'sqlexpr'}}],
     ['AddField', 'T', 'n5', 'BooleanField', {'initial': False}],
     ['AddField', 'T', 'n6', 'CharField', {'max_length': 20, 'initial': ''}],
+    # a change that does not touch nullability must not rewrite NULLs, even when it carries an initial value (hinted
+    # ChangeFields always do)
+    ['ChangeField', 'T', 'f3', {'unique': True, 'initial': 'U3'}],
 ]
 
 
@@ -4652,7 +4663,44 @@ def initial_param_order_mismatch(spec, muts, batched=True):
     return mismatch
 
 
+def folded_initial_overrides(muts, batched=True):
+    """Is a mutation that populates a column (AddField with an initial value, or ChangeField(null=False, initial))
+    followed, in the same optimisable batch, by a ChangeField of the same field that also carries an initial
+    value?  The optimiser folds the second into the first and lets the later initial win."""
+    if not batched:
+        return False
+    for i, first in enumerate(muts):
+        if first[0] == 'AddField':
+            attrs = first[4] if len(first) > 4 else {}
+            populates = attrs.get('initial') is not None
+        elif first[0] == 'ChangeField':
+            attrs = first[3] if len(first) > 3 else {}
+            populates = attrs.get('initial') is not None and attrs.get('null') is False
+        else:
+            continue
+        if not populates:
+            continue
+        for later in muts[i + 1:]:
+            if later[0] == 'SQLMutation':
+                break
+            if later[0] == 'ChangeField' and later[1:3] == first[1:3] and \
+               (later[3] if len(later) > 3 else {}).get('initial') is not None:
+                return True
+    return False
+
+
 KNOWN_C02[:] = [
+    {
+        'id': 'folded-changefield-initial-overrides-earlier',
+        'clause': ['null-replaced-by-initial', 'added-column-initial'],
+        'match': 'AddField(f, initial=A) or ChangeField(f, null=False, initial=A) followed in the same batch by '
+                 'ChangeField(f, ..., initial=B) that does not itself need an initial value (e.g. unique=True)',
+        'what': 'AppMutator._copy_change_attrs lets the later ChangeField\'s initial value replace the earlier '
+                'mutation\'s when folding: existing NULLs / the new column are filled with B, while one mutation at '
+                'a time fills them with A (4 existing tests in test_preprocessing assert the later value, so the '
+                'repair is not a change the test suite accepts: recorded)',
+        'pred': lambda sc, ob: folded_initial_overrides(sc['muts'], sc.get('batched', True)),
+    },
     {
         'id': 'initial-values-bound-in-mutation-order',
         'clause': ['added-column-initial', 'null-replaced-by-initial',
@@ -4697,6 +4745,15 @@ _SCHEMA = ['batched-same-schema', 'evolver-same-schema']
 _ROWS = ['batched-same-rows', 'evolver-same-rows']
 
 KNOWN_C03[:] = [
+    {
+        'id': 'optimizer-folded-initial-later-wins',
+        'clause': ['batched-same-rows', 'evolver-same-rows'],
+        'match': 'see KNOWN_C02 folded-changefield-initial-overrides-earlier: AddField(f, initial=A) or '
+                 'ChangeField(f, null=False, initial=A) followed in the same batch by ChangeField(f, initial=B)',
+        'what': 'AppMutator._copy_change_attrs lets the later initial value win when folding: the rows of the '
+                'optimised run hold B where the one-at-a-time run holds A',
+        'pred': lambda sc, ob: folded_initial_overrides(sc['muts'], True),
+    },
     {
         'id': 'optimizer-rewrites-mutations-in-place',
         'clause': 'definitions-unaltered',
@@ -5086,6 +5143,19 @@ KNOWN_C03.extend([
 # --- BEGIN GENERATED WITNESSES ---
 _WITNESS_JSON = r'''
 {
+ "C03|batched-same-rows|optimizer-folded-initial-later-wins": {
+  "spec": "@SEQ_SPEC", "rows": "@SEQ_ROWS", "evolver_parts": [1, 2],
+  "muts": [["AddField", "B", "x", "CharField", {"max_length": 8, "initial": "i'%"}],
+           ["ChangeField", "B", "x", {"null": true}],
+           ["ChangeField", "B", "x", {"null": false, "initial": "n%"}]]
+ },
+ "C02|null-replaced-by-initial|folded-changefield-initial-overrides-earlier": {
+  "family": "init",
+  "spec": "@INIT_SPEC",
+  "rows": {"T": [{"f1": "one", "f2": 1, "f3": null, "keep": "keep-0"}], "Z": [{"z1": "zz", "z2": 5}]},
+  "muts": [["ChangeField", "T", "f3", {"null": false, "initial": "F3 50%"}],
+           ["ChangeField", "T", "f3", {"unique": true, "initial": "U3"}]]
+ },
  "C01|accepted-evolution-crashes|changefield-related_model-unsupported": {
   "bystanders": [
    "Z"
